@@ -78,55 +78,55 @@ type Replay struct {
 
 // WorkerStats is written by every worker and merged by the driver.
 type WorkerStats struct {
-	Property      string         `json:"property"`
-	Engine        string         `json:"engine"`
-	Worker        int            `json:"worker"`
-	Race          bool           `json:"race"`
-	WorkerSeed    uint64         `json:"worker_seed"`
-	Runs          int            `json:"runs"`
-	Nontrivial    int            `json:"nontrivial_runs"`
-	DistinctExact int            `json:"distinct_nontrivial_exact"`
-	DistinctSat   bool           `json:"distinct_saturated"`
-	HLL           string         `json:"hll"`
-	DistinctSched int            `json:"distinct_schedules"`
-	SchedHLL      string         `json:"sched_hll"`
-	AbstractSt    int            `json:"abstract_states"`
-	AbsHLL        string         `json:"abs_hll"`
-	Probes        map[string]int `json:"probes"`
-	Faults        map[string]int `json:"faults_fired"`
-	SimNs         int64          `json:"sim_ns"`
-	Steps         int64          `json:"steps"`
-	Ops           int64          `json:"ops"`
-	Rechecks      int            `json:"determinism_rechecks"`
-	RecheckFail   int            `json:"determinism_mismatches"`
-	KnownHits     map[string]int `json:"known_findings_hit"`
-	KnownWhat     map[string]string `json:"known_findings_what"`
-	Violations    int            `json:"violations"`
-	ReplayPath    string         `json:"replay_path,omitempty"`
-	ViolationSig  string         `json:"violation_sig,omitempty"`
-	ViolationMsg  string         `json:"violation_detail,omitempty"`
-	WallS         float64        `json:"wall_s"`
-	Samples       []json.RawMessage `json:"samples"`
-	Note          string         `json:"note,omitempty"`
-	HarnessRaces  int            `json:"harness_race_reports"`
-	OtherRaces    int            `json:"library_race_reports_not_judged"`
-	Rule          string         `json:"rule"`
+	Property      string              `json:"property"`
+	Engine        string              `json:"engine"`
+	Worker        int                 `json:"worker"`
+	Race          bool                `json:"race"`
+	WorkerSeed    uint64              `json:"worker_seed"`
+	Runs          int                 `json:"runs"`
+	Nontrivial    int                 `json:"nontrivial_runs"`
+	DistinctExact int                 `json:"distinct_nontrivial_exact"`
+	DistinctSat   bool                `json:"distinct_saturated"`
+	HLL           string              `json:"hll"`
+	DistinctSched int                 `json:"distinct_schedules"`
+	SchedHLL      string              `json:"sched_hll"`
+	AbstractSt    int                 `json:"abstract_states"`
+	AbsHLL        string              `json:"abs_hll"`
+	Probes        map[string]int      `json:"probes"`
+	Faults        map[string]int      `json:"faults_fired"`
+	SimNs         int64               `json:"sim_ns"`
+	Steps         int64               `json:"steps"`
+	Ops           int64               `json:"ops"`
+	Rechecks      int                 `json:"determinism_rechecks"`
+	RecheckFail   int                 `json:"determinism_mismatches"`
+	KnownHits     map[string]int      `json:"known_findings_hit"`
+	KnownWhat     map[string]string   `json:"known_findings_what"`
+	Violations    int                 `json:"violations"`
+	ReplayPath    string              `json:"replay_path,omitempty"`
+	ViolationSig  string              `json:"violation_sig,omitempty"`
+	ViolationMsg  string              `json:"violation_detail,omitempty"`
+	WallS         float64             `json:"wall_s"`
+	Samples       []json.RawMessage   `json:"samples"`
+	Note          string              `json:"note,omitempty"`
+	HarnessRaces  int                 `json:"harness_race_reports"`
+	OtherRaces    int                 `json:"library_race_reports_not_judged"`
+	Rule          string              `json:"rule"`
 	Components    map[string][]string `json:"components"`
-	Assumptions   []string       `json:"assumptions"`
+	Assumptions   []string            `json:"assumptions"`
 }
 
 type Config struct {
-	Property   string
-	Tier       string
-	Seed       uint64
-	Worker     int
-	MaxRuns    int
-	MaxSecs    float64
-	Out        string
-	Mode       string // search | replay | shrinkchild | trace
-	ReplayPath string
-	KnownPath  string
-	ReplayDir  string
+	Property     string
+	Tier         string
+	Seed         uint64
+	Worker       int
+	MaxRuns      int
+	MaxSecs      float64
+	Out          string
+	Mode         string // search | replay | shrinkchild | trace
+	ReplayPath   string
+	KnownPath    string
+	ReplayDir    string
 	ShrinkBudget int
 }
 
@@ -149,17 +149,17 @@ func LoadConfig() Config {
 		secs = 10
 	}
 	c := Config{
-		Property:   os.Getenv("VERIF_PROP"),
-		Tier:       os.Getenv("VERIF_TIER"),
-		Seed:       seed,
-		Worker:     envInt("VERIF_WORKER", 0),
-		MaxRuns:    envInt("VERIF_RUNS", 1<<62),
-		MaxSecs:    secs,
-		Out:        os.Getenv("VERIF_OUT"),
-		Mode:       os.Getenv("VERIF_MODE"),
-		ReplayPath: os.Getenv("VERIF_REPLAY"),
-		KnownPath:  os.Getenv("VERIF_KNOWN"),
-		ReplayDir:  os.Getenv("VERIF_REPLAY_DIR"),
+		Property:     os.Getenv("VERIF_PROP"),
+		Tier:         os.Getenv("VERIF_TIER"),
+		Seed:         seed,
+		Worker:       envInt("VERIF_WORKER", 0),
+		MaxRuns:      envInt("VERIF_RUNS", 1<<62),
+		MaxSecs:      secs,
+		Out:          os.Getenv("VERIF_OUT"),
+		Mode:         os.Getenv("VERIF_MODE"),
+		ReplayPath:   os.Getenv("VERIF_REPLAY"),
+		KnownPath:    os.Getenv("VERIF_KNOWN"),
+		ReplayDir:    os.Getenv("VERIF_REPLAY_DIR"),
 		ShrinkBudget: envInt("VERIF_SHRINK", 3000),
 	}
 	if c.Mode == "" {
@@ -584,7 +584,7 @@ func RunChild(replayPath, out, prop string) (int, *Replay) {
 		env = append(env, e)
 	}
 	cmd.Env = append(env, "VERIF_MODE=replay", "VERIF_REPLAY="+replayPath, "VERIF_OUT="+out, "VERIF_PROP="+prop,
-		"GORACE=halt_on_error=0 suppress_equal_stacks=0 suppress_equal_addresses=0")
+		"GORACE=halt_on_error=0 exitcode=0 suppress_equal_stacks=0 suppress_equal_addresses=0")
 	done := make(chan error, 1)
 	if err := cmd.Start(); err != nil {
 		return ExitInternal, nil
